@@ -27,7 +27,7 @@ func (l *CompiledLoader) Load(name string) (string, error) {
 
 	// Check if the file exists
 	if _, err := os.Stat(filePath); os.IsNotExist(err) {
-		return "", fmt.Errorf("compiled template file not found: %s", filePath)
+		return "", fmt.Errorf("%w: compiled template file not found: %s", ErrTemplateNotFound, filePath)
 	}
 
 	// Read the file
